@@ -40,6 +40,22 @@ void harness(void) {
       if (a % d == 0 && b % d == 0) ASSERT(g % d == 0, "every common divisor divides gcd");
     }
   }
+#elif MODE == 2
+  /* full-width special cases (any value of the type, non-negative for signed T): gcd(x,0) = gcd(0,x) = gcd(x,x) = x, gcd(x,1) = 1,
+   * and reduce_fraction(x, x) = (1,1), reduce_fraction(x, 1) = (x, 1), reduce_fraction(0, x) = (0, 1) */
+  uint64_t x = a;
+  (void)d;
+  ASSERT(CAT(w_gcd_, T)(x, 0) == x, "gcd(x,0) == x");
+  ASSERT(CAT(w_gcd_, T)(0, x) == x, "gcd(0,x) == x");
+  ASSERT(CAT(w_gcd_, T)(x, x) == x, "gcd(x,x) == x");
+  if (x != 0) {
+    ASSERT(CAT(w_gcd_, T)(x, 1) == 1 && CAT(w_gcd_, T)(1, x) == 1, "gcd(x,1) == 1");
+    uint64_t o[2] = {7, 7};
+    ASSERT(CAT(w_reduce_, T)(x, x, o) == 0 && o[0] == 1 && o[1] == 1, "reduce_fraction(x,x) == (1,1)");
+    ASSERT(CAT(w_reduce_, T)(x, 1, o) == 0 && o[0] == x && o[1] == 1, "reduce_fraction(x,1) == (x,1)");
+    ASSERT(CAT(w_reduce_, T)(0, x, o) == 0 && o[0] == 0 && o[1] == 1, "reduce_fraction(0,x) == (0,1)");
+  }
+  OBS(x);
 #else
   /* reduce_fraction(a, b), b != 0 (a fraction has a non-zero denominator) */
   ASSUME(b != 0);
